@@ -612,6 +612,7 @@ func rewriteAnnotated(rt *rapid.T, p *im.Program, ty *im.Type, fields []*im.Fiel
 			if typeHasAnnots(p, f.Type) {
 				typeAnnotSeen[annot] = true
 			}
+			annotValueSeen[annot+"-written:"+flagValueClass(f.Annots[annot])] = true
 			nv := p.GenValue(rt, f.Type, im.ValOpts{Depth: 2, NoNaN: true, Marker: markerFunc(rt, markers, label)}, label+"_alt")
 			out.Fields = append(out.Fields, wm.Field{ID: wf.ID, V: nv})
 			if depth > deepest {
@@ -632,6 +633,23 @@ func rewriteAnnotated(rt *rapid.T, p *im.Program, ty *im.Type, fields []*im.Fiel
 // field carrying it whose declared type has annotations of its own
 // (bookkeeping for the evidence classes; reset by C15 per case).
 var typeAnnotSeen = map[string]bool{}
+
+// annotValueSeen notes how the annotation of the fields rewritten in the current case is
+// written in the IDL (bookkeeping for the evidence classes; reset by C15 per case).
+var annotValueSeen = map[string]bool{}
+
+// flagValueClass classifies the spelling of a presence annotation.
+func flagValueClass(v string) string {
+	switch v {
+	case "\x00":
+		return "bare"
+	case "":
+		return "empty-value"
+	case "true", "1", "TRUE", "T", "t", "True":
+		return "boolean-true-literal"
+	}
+	return "other-word"
+}
 
 // typeHasAnnots: the declared type of a field is an annotated type expression
 // or names an annotated definition.
@@ -668,6 +686,7 @@ func C15(t *testing.T) {
 		var v, alt, nolog wm.W
 		var depth int
 		typeAnnotSeen = map[string]bool{}
+		annotValueSeen = map[string]bool{}
 		if tg.Def == nil {
 			v, depth = rewriteAnnotated(rt, p, nil, tg.Fields, base, "go.redact", &markers, "r1", 0)
 			alt, _ = rewriteAnnotated(rt, p, nil, tg.Fields, v, "go.redact", &markers, "r2", 0)
@@ -689,6 +708,10 @@ func C15(t *testing.T) {
 				cls = append(cls, a+"-on-field-of-annotated-type")
 			}
 		}
+		for k := range annotValueSeen {
+			cls = append(cls, k)
+		}
+		sort.Strings(cls[4:])
 		ev.Case(d, nontriv, cls...)
 		if nontriv {
 			ev.KeepSample("c15", d, func() interface{} {
